@@ -70,6 +70,7 @@ NONASCII = 'éßλж —'
 SYMS = '.,;!?*+-=/|<>()[]"\'`@'
 ODD = '\x00\x7f\x01\x1b'
 ASTRAL = '\U0001d49c'
+PRIM_SAFE = set('{}$&#^_~%' + 'éßλж—' + '.,;!?*+-/|<>()[]"\'@')      # characters \catcode`\X=N can name while \ ` = and the digits keep their meaning
 ALPHABET = SPECIALS + BLANKS + '\n' + LETTERS + DIGITS + NONASCII + SYMS + ODD + ASTRAL
 
 
@@ -301,8 +302,28 @@ def run(case, st):
     spec = case['table']
     if spec['base'] == 'verbatim':
         ctx.setVerbatimCatcodes()
-    for ch, code in spec['assign']:
-        ctx.catcode(ch, code)
+    via_source = (spec['base'] == 'default' and spec['assign'] and all(ch in PRIM_SAFE for ch, code in spec['assign'])
+                  and common.case_hash(case)[1] % 2 == 0)
+    if via_source:
+        # the way a document does it: \catcode`\X=N in the source, executed by the \catcode primitive
+        try:
+            for ch, code in spec['assign']:
+                tex.input('\\catcode`\\%s=%d\\relax' % (ch, code))
+                for _ in tex:
+                    pass
+        except common.CaseTimeout:
+            raise
+        except Exception as e:
+            import traceback
+            st.violation('catcode-primitive-raises-' + type(e).__name__, case, 'table %r: %s' % (spec, traceback.format_exc()[-400:]))
+            return {'nontrivial': True}
+        tex.inputs[:] = []
+        st.counters['tables_installed_by_primitive'] += 1
+        st.feature('table-installed-by', 'catcode-primitive')
+    else:
+        for ch, code in spec['assign']:
+            ctx.catcode(ch, code)
+        st.feature('table-installed-by', 'Context.catcode')
     if common.case_hash(case)[0] % 4 == 0:
         # the same table, reached the way a document reaches it after an inner group has come and gone
         # (a group with a category change of its own was opened and closed after the assignments)
